@@ -158,7 +158,7 @@ func init() {
 		oracles: eng.Oracles{Content: true},
 		gen: func(r *eng.Rng, idx int, th bool) *eng.Program {
 			cfg := eng.GenConfig(r, pickBacking(r, "none", "store", "store", "store", "custom"), false)
-			gp := eng.GenParams{MinBatches: 3, MaxBatches: 18, NKeys: 6 + r.Intn(8), Park: true, Reopen: true, Idle: true, QuietPct: 40}
+			gp := eng.GenParams{MinBatches: 3, MaxBatches: 18, NKeys: 6 + r.Intn(8), Park: true, Reopen: true, Idle: true, QuietPct: 40, BytelessPct: 6}
 			if th {
 				gp.MaxBatches = 30
 			}
@@ -265,7 +265,7 @@ func init() {
 		gen: func(r *eng.Rng, idx int, th bool) *eng.Program {
 			cfg := eng.GenConfig(r, pickBacking(r, "none", "store", "store", "store", "custom"), true)
 			gp := eng.GenParams{MinBatches: 3, MaxBatches: 16, NKeys: 4 + r.Intn(6), Park: true, Reopen: true, Merge: true,
-				Children: cfg.Backing != "custom" && r.Chance(1, 3), Idle: true, QuietPct: 30, CrossBias: true}
+				Children: cfg.Backing != "custom" && r.Chance(1, 3), Idle: true, QuietPct: 30, CrossBias: true, BytelessPct: 4}
 			if idx%5 == 2 {
 				eng.PartialCompactionProfile(r, &cfg, &gp)
 			}
@@ -282,7 +282,7 @@ func init() {
 		gen: func(r *eng.Rng, idx int, th bool) *eng.Program {
 			merge := r.Chance(1, 2)
 			cfg := eng.GenConfig(r, pickBacking(r, "none", "store", "store", "custom"), merge)
-			gp := eng.GenParams{MinBatches: 3, MaxBatches: 16, NKeys: 5 + r.Intn(8), Park: true, Reopen: r.Chance(1, 3), Merge: merge, Idle: true, QuietPct: 25}
+			gp := eng.GenParams{MinBatches: 3, MaxBatches: 16, NKeys: 5 + r.Intn(8), Park: true, Reopen: r.Chance(1, 3), Merge: merge, Idle: true, QuietPct: 25, BytelessPct: 8}
 			if idx%6 == 5 && cfg.Backing == "store" {
 				gp.WideKeys = 150 + r.Intn(500)
 				gp.SkewedWide = true
